@@ -20,6 +20,11 @@ def buf(e, inline=True):
     return ('code', [('expr', e)], True, inline)
 
 
+def raw(e, inline=True):
+    """!= e : buffered, not escaped"""
+    return ('code', [('expr', e)], False, inline)
+
+
 def tag(name, kids, attrs=(), inline=False):
     return ('tag', name, inline, list(attrs), [], list(kids))
 
@@ -241,8 +246,59 @@ TEMPLATES = {
         tag(b"ul", [('each', b"it", None, I(b"list"), [
             tag(b"li", [buf(call(I(b"it"), b"label")), text(b" "), buf(('dot', ('dot', I(b"it"), b"tags"), b"length"))])])]),
     ],
+    # ---- SERIALISING templates for the 'heavy' storms: whole objects go through the encoders (json(), JSON.stringify,
+    # printing an object, an object as attribute value), recursive mixins walk the data as deep as it is, loops
+    # run as often and write as much as the data says.  Whatever the engine counts or limits per render (nesting
+    # depth, recursion depth, iterations, bytes) is then counted in MANY renders at the same time.
+    # the page's data embedded as JSON, four ways
+    "ser/json": [
+        tag(b"script", [raw(fcall(b"json", I(b"doc")))]),
+        tag(b"p", [buf(('dot', I(b"doc"), b"name"))]),
+        tag(b"pre", [raw(call(I(b"JSON"), b"stringify", I(b"doc")))]),
+        tag(b"div", [raw(I(b"doc"))], attrs=[(b"data-doc", ('dot', I(b"doc"), b"child"), True)]),
+        tag(b"q", [buf(('dot', ('dot', I(b"doc"), b"child"), b"name")), buf(fcall(b"meet"))]),
+    ],
+    # a recursive mixin that walks a tree (chain of `child`, lists of `kids`), serialising sub-trees on its way
+    # down and, at marked nodes, the whole page data from the bottom of the recursion
+    "ser/tree": [
+        ('mixin', b"node", [b"n", b"d"], [
+            tag(b"li", [
+                buf(('dot', I(b"n"), b"name")), text(b"@"), buf(I(b"d")),
+                ('cond', ('dot', I(b"n"), b"mark"), [tag(b"code", [raw(fcall(b"json", I(b"doc")))], inline=True),
+                                                     buf(fcall(b"meet"))], None),
+                ('cond', ('dot', I(b"n"), b"child"),
+                 [tag(b"ul", [('call', b"node", [('dot', I(b"n"), b"child"), ('bin', '+', I(b"d"), N(1))], [], [])])],
+                 ('block', [tag(b"i", [raw(fcall(b"json", I(b"n")))], inline=True)])),
+                ('cond', ('dot', I(b"n"), b"kids"),
+                 [tag(b"ol", [('each', b"c", None, ('dot', I(b"n"), b"kids"), [
+                     ('call', b"node", [I(b"c"), ('bin', '+', I(b"d"), N(1))], [], [])])])], None),
+            ])]),
+        tag(b"ul", [('call', b"node", [I(b"doc"), ZERO], [], [])]),
+        tag(b"pre", [raw(call(I(b"JSON"), b"stringify", ('dot', I(b"doc"), b"child")))]),
+    ],
+    # long loops and a long output: a table of rows with a nested object each, a running total, a while loop that
+    # only counts
+    "ser/rows": [
+        code(var(b"total", ZERO)),
+        tag(b"table", [('each', b"r", b"i", I(b"rows"), [
+            tag(b"tr", [tag(b"td", [buf(I(b"i"))], inline=True), tag(b"td", [buf(('dot', I(b"r"), b"name"))], inline=True),
+                        tag(b"td", [buf(('bin', '*', ('dot', I(b"r"), b"price"), ('dot', I(b"r"), b"qty")))], inline=True),
+                        tag(b"td", [raw(fcall(b"json", ('dot', I(b"r"), b"meta")))], inline=True)]),
+            code(assign(I(b"total"), ('bin', '+', I(b"total"), ('bin', '*', ('dot', I(b"r"), b"price"), ('dot', I(b"r"), b"qty"))))),
+        ])]),
+        tag(b"p", [buf(I(b"total")), text(b" in "), buf(('dot', I(b"rows"), b"length"))]),
+        code(var(b"i", ZERO)),
+        code(var(b"acc", ZERO)),
+        ('while', ('bin', '<', I(b"i"), I(b"spin")), [
+            code(assign(I(b"acc"), ('bin', '+', I(b"acc"), ('bin', '%', I(b"i"), N(7))))),
+            code(assign(I(b"i"), ('bin', '+', I(b"i"), N(1)))),
+        ]),
+        tag(b"p", [buf(I(b"acc")), text(b"/"), buf(I(b"i")), buf(fcall(b"meet"))]),
+        tag(b"pre", [raw(call(I(b"JSON"), b"stringify", I(b"summary")))]),
+    ],
 }
 TNAMES = sorted(TEMPLATES)
+SER_TNAMES = [t for t in TNAMES if t.startswith("ser/")]
 CTX_TNAMES = [t for t in TNAMES if t.startswith("ctx/")]
 RARE_TNAMES = [t for t in TNAMES if t.startswith(("opt/", "str/"))]
 REC_TNAMES = [t for t in TNAMES if t.startswith("rec/")]
@@ -337,7 +393,69 @@ def gen_data(rng, t):
             if rng.random() < 0.7:
                 x.idx = idx       # mostly ONE named type per job: every goroutine of the round converts it
         return {b"rec": rec, b"list": lst, b"want": rng.choice([b"x", b"y", b"q"])}
+    if t in SER_TNAMES:
+        return gen_ser(rng, t, rng.randint(1, 4), 1)
     return {b"x": 1}   # a template that is not loaded: not_found
+
+
+def gen_node(rng, depth, level=1, kids_left=None):
+    """a tree of plain maps: a chain of `child` members `depth` objects deep, some nodes with a list of `kids`
+    (small sub-trees), a few of them marked"""
+    w = lambda: rng.choice(WORDS)
+    kids_left = kids_left if kids_left is not None else [4]
+    n = {b"name": w() + b"-%d" % level, b"level": level}
+    if rng.random() < 0.3:
+        n[b"tags"] = [w() for _ in range(rng.randint(0, 3))]
+    if rng.random() < 0.15:
+        n[b"dims"] = {b"w": rng.randint(0, 99), b"h": rng.randint(0, 99)}
+    if level < depth:
+        n[b"child"] = gen_node(rng, depth, level + 1, kids_left)
+    if kids_left[0] > 0 and rng.random() < 0.2:
+        k = rng.randint(1, min(3, kids_left[0]))
+        kids_left[0] -= k
+        n[b"kids"] = [gen_node(rng, min(depth, level + rng.randint(1, 3)), level + 1, [0]) for _ in range(k)]
+    return n
+
+
+def mark_leaves(rng, n, budget):
+    """mark up to budget[0] nodes at the END of child chains (the whole page data is serialised from there)"""
+    if b"child" in n:
+        mark_leaves(rng, n[b"child"], budget)
+    elif budget[0] > 0 and rng.random() < 0.7:
+        budget[0] -= 1
+        n[b"mark"] = True
+    for k in n.get(b"kids", []):
+        mark_leaves(rng, k, budget)
+
+
+def depth_of(v):
+    """objects nested in each other (maps count, lists pass through)"""
+    if isinstance(v, dict):
+        return 1 + max([depth_of(x) for x in v.values()] or [0])
+    if isinstance(v, list):
+        return max([depth_of(x) for x in v] or [0])
+    return 0
+
+
+def gen_ser(rng, t, depth, scale):
+    """data of a serialising template: `depth` = objects nested in each other, `scale` stretches loop counts"""
+    w = lambda: rng.choice(WORDS)
+    if t == "ser/json":
+        return {b"doc": gen_node(rng, depth)}
+    if t == "ser/tree":
+        doc = gen_node(rng, depth)
+        mark_leaves(rng, doc, [2])
+        return {b"doc": doc}
+    def row(k):
+        meta = {b"sku": b"S%d" % rng.randint(0, 9999)}
+        if rng.random() < 0.5:
+            meta[b"dims"] = {b"w": rng.randint(0, 99), b"h": rng.randint(0, 99), b"unit": {b"n": w()}}
+        if rng.random() < 0.3:
+            meta[b"tags"] = [w() for _ in range(rng.randint(0, 2))]
+        return {b"name": w() + b"-%d" % k, b"price": rng.randint(0, 999), b"qty": rng.randint(0, 20), b"meta": meta}
+    nrows = rng.randint(0, 8) * scale
+    return {b"rows": [row(k) for k in range(nrows)], b"spin": rng.choice([0, 3, 50, 400]) * scale,
+            b"summary": {b"by": w(), b"first": (row(0) if nrows else None), b"n": nrows}}
 
 
 # the JS spelling a template uses and spellings of the key that Map.Member's fallbacks find (or do not)
@@ -413,6 +531,24 @@ def res_term(r):
     return b"(inr %d)" % CLASS_CODE.get(r["class"], 9)
 
 
+def cq_packed(b):
+    """a long byte string packed 7 bytes per primitive integer for Run.Judge_C08.unpack"""
+    ws = []
+    for i in range(0, len(b), 7):
+        ch = b[i:i + 7]
+        ws.append(b"%d" % (int.from_bytes(ch, "little") | (1 << (8 * len(ch)))))
+    return b"(unpack [" + b";".join(ws) + b"]%uint63)"
+
+
+def _depth_go(v):
+    """objects nested in each other in a harness data value ({"t": "map", "v": [[k, value], ...]})"""
+    if v.get("t") == "map":
+        return 1 + max([_depth_go(x[1]) for x in v["v"]] or [0])
+    if v.get("t") == "arr":
+        return max([_depth_go(x) for x in v["v"]] or [0])
+    return 0
+
+
 def flat(ds):
     """the distinct results of one goroutine in one round (older observations: one result, not a list)"""
     return ds if isinstance(ds, list) else [ds]
@@ -432,28 +568,42 @@ class C08(Prop):
     prop_file = "Props/C08.v"
     coq_targets = ["Props/C08.vo", "Run/Judge_C08.vo"]
     needs_race = True
-    # one case = one engine and rounds x goroutines x repetitions concurrent renders (quick: about 11 000 renders)
+    # one case = one engine and rounds x goroutines x repetitions concurrent renders (quick: about 13 000 renders)
     sizes = {"quick": 56, "thorough": 800}
     shard = 8
     design_ref = "DESIGN.md section 6 C08, section 10"
-    rule = ("one case = one production-mode engine with 18 loaded templates (loops, mixins with blocks, variable "
+    rule = ("one case = one production-mode engine with 21 loaded templates (loops, mixins with blocks, variable "
             "mutation, array push/sort, $global, Math/JSON/Object, while/case/attributes, a data-dependent execution "
             "error; three templates ctx/* whose output depends on the CONTEXT of the render through the harness's "
             "context-aware template functions who/cnum/cget/alive/Req.user/Req.plus supplied via Engine.FuncProvider; "
             "four templates opt/*, str/* that go through the engine's rarely used shared helpers: optional members of "
             "list items and of a mixin's `attributes` that are mostly NOT there, members found only by name folding "
             "(Name for name, userID for userid, URL for url), string helpers, number formatting, stripTags, parseInt; "
-            "three templates rec/* over STRUCT data), 1-8 distinct jobs (template, data, context: user, number, string "
-            "table, sometimes already cancelled), N in {2..32} goroutines released by a barrier, each call with its own "
+            "three templates rec/* over STRUCT data; three SERIALISING templates ser/*: the page's data embedded as JSON "
+            "four ways (json(), JSON.stringify, printing the object, an object as attribute value), a recursive mixin that "
+            "walks a tree as deep as the data is and serialises sub-trees and, from the bottom of the recursion, the whole "
+            "page data, a table of rows with nested objects plus a while loop that only counts), 1-8 distinct jobs (template, data, context: user, number, string "
+            "table, sometimes already cancelled), N in {2..32} goroutines (48-128 in the heavy storms) released by a barrier, each call with its own "
             "freshly built data value and its own context value, 2-6 rounds, harness built with -race. Struct data "
             "(harness/c08data.go): values of reflect.StructOf types with 5-408 fields whose extra field is named after "
             "a process-wide epoch, so every round (in warm and cold cases) the renders meet Go types that did not exist "
             "before, all goroutines of the round sharing the round's types; and values (also behind pointers) of 48 "
-            "instances of a generic named type with methods, the instance shifted by the round. Four shapes: 'ctx' "
-            "(about 27%): overlapping renders of the SAME context-dependent template that differ in their context and "
-            "partly in their data; 'mixed' (23%): all templates; 'rare' (25%): 8-32 goroutines x 4-20 renders each per "
+            "instances of a generic named type with methods, the instance shifted by the round. Five shapes: 'heavy' "
+            "(6-7 cases of the quick tier's 56, 1 in 50 of the thorough tier; one corpus witness): MANY renders in flight x "
+            "MUCH work per render - 48, 64, 96 or 128 goroutines, rate limit off or far above the default (64, 256), 2-5 "
+            "renders each in one round, every render with its own value of deep or large but ordinary data (maps and lists: "
+            "chains of 5-14 nested objects with side lists of sub-trees; up to 96 table rows with 3 levels of nested objects; "
+            "while loops of up to 4800 iterations; outputs up to about 6 kB) through the ser/* templates, so that whatever a "
+            "render counts or limits per call - objects nested in each other inside the encoders, depth of the mixin "
+            "recursion, loop iterations, bytes written - is counted in 48-128 renders at the same moment (a render of such "
+            "data outlasts the scheduler's time slice under the race detector, so after the first slices all goroutines are "
+            "in the middle of a render; coverage.distribution.heavy reports the most renders in flight, the deepest data, the "
+            "largest goroutines x depth and the largest sum of outputs in flight); per goroutine the first two distinct "
+            "results are kept (two distinct results already show that one is not the result of the render alone); 'ctx' "
+            "(about 21%): overlapping renders of the SAME context-dependent template that differ in their context and "
+            "partly in their data; 'mixed' (20%): all templates; 'rare' (24%): 8-32 goroutines x 4-20 renders each per "
             "round of the opt/*, str/* and rec/* templates (many renders at once inside the absent-member fallbacks and "
-            "helpers); 'cold' (25%, plus 15-25% of the other shapes): NO render precedes the storm in the storm's "
+            "helpers); 'cold' (24%, plus 15-25% of the other shapes): NO render precedes the storm in the storm's "
             "process - the harness re-executes itself twice: one fresh process renders every job alone (the baseline "
             "seq), another fresh process runs only the storm and the renders alone after it - so the first use of every "
             "template, Go type (StructOf and named, a new one per round) and helper in that process is made by several "
@@ -468,7 +618,10 @@ class C08(Prop):
             "alone after the storm; any panic, differing output, race report or dead process is a violation; once the "
             "race detector has reported, the case's storm is cut short. Non-trivial = at least two concurrent calls and "
             "every job rendered alone; distinct by SHA-1 of the case. Small batches (replay, shrinking candidates, final "
-            "run of a shrunk witness) are attempted up to 40 times and the first attempt that differs is the observation")
+            "run of a shrunk witness) are attempted up to 40 times (heavy storms: 3 times) and the first attempt that differs "
+            "is the observation. In the case terms outputs of 48 bytes and more are written once per case (a table of "
+            "primitive-integer packed strings decoded by Run.Judge_C08.unpack) and schedules run-length encoded (rle); the "
+            "judge compares the decoded bytes of every concurrent result with the decoded bytes of the render alone")
     trusted = [
         "PARTIAL: absence of data races is the Go race detector's observation on the code executed by this run "
         "(harness built with -race, GORACE log collected per case and per child process); it is not a theorem",
@@ -490,6 +643,15 @@ class C08(Prop):
         "Go scheduler: the interleavings that occur are whatever the runtime produces on this machine, steered by the "
         "barrier, the stagger plans and the repetitions; the schedule under which the model runs is drawn by the "
         "generator (the theorems hold for every schedule)",
+        "state that ADDS UP over concurrent renders (a process-wide counter or budget of nesting depth, recursion depth, "
+        "iterations, bytes, in-flight calls): that the Go code keeps every such count per render is observed by the heavy "
+        "storms up to the sizes they reach (48-128 renders in flight, data 5-16 objects deep, goroutines x depth of the "
+        "order of 1000, about 300 kB of output in flight, up to 128 x 4800 loop iterations; the numbers of a run are "
+        "in coverage.distribution.heavy), not proved about the Go source; a "
+        "limit that only trips beyond those products is not seen",
+        "the case-term encodings (Run.Judge_C08.unpack over Coq's primitive 63-bit integers, rle) are decoding helpers of "
+        "the judge; no theorem mentions them; the in-flight counter of the heavy storms is two atomic operations per "
+        "Render in the harness (only in those cases: they order renders for the race detector)",
     ]
     assumptions = [
         "data-race freedom of Go memory is observed (race detector on executed code), not proved",
@@ -500,6 +662,8 @@ class C08(Prop):
         "themselves free of cross-call state; the harness's are",
         "an already cancelled context is only used without a rate limit (with one, Render's select between the "
         "semaphore and ctx.Done() is a scheduler coin toss, which is not what C08 compares)",
+        "the heavy storms run with the rate limit off or at 64/256: with the default limit of 8 at most 8 renders are "
+        "inside the engine at once, and sums over renders in flight stay 16 times smaller",
         "first use: what is cold in a cold case is the storm's PROCESS (package-level state of pugjs and of the "
         "libraries below it, Go types, the engine's templates); the operating system's caches are not",
     ]
@@ -509,20 +673,52 @@ class C08(Prop):
         "harness's cases, and no statement about the Go source of findFunction, Map.convert or Map.Member is proved",
         "Part 2d's strings.Title / lowerFirst / upperFirst are modelled on ASCII only, and the shared-caser variant "
         "has one point of interference per lookup where the real helper would have two",
+        "no machine in Models/Sched.v has a counter that several renders add to (a depth / iteration / byte budget kept "
+        "process-wide instead of per render): such a step function violates view_preserved, so the interleave theorems "
+        "do not apply to it, but the refutation (a guard that trips only under overlap) is not written down as a "
+        "theorem; the class is covered by output comparison in the heavy storms only",
     ]
 
     # ---------------------------------------------------------------- generation
     def generate(self, rng, n, tier):
         cases = []
-        for _ in range(n):
+        # the heavy storms are a few expensive cases: about 1 in 9 of the quick tier, 1 in 50 of the thorough tier
+        heavy_share = 0.11 if tier == "quick" else 0.02
+        nheavy = int(n * heavy_share + rng.random())      # their number is fixed (6 or 7 of 56), not left to chance
+        for i in range(n):
             ratelimit = rng.choice([0, 0, 0, 8, 2])
-            kind = rng.random()
+            kind = 0.0 if i < nheavy else heavy_share + rng.random() * (1 - heavy_share)
             jobs = []
             reps = 1
             cold = False
             job = lambda t, k, d=None: {"tpl": hx(t), "data": data_go08(gen_data(rng, t) if d is None else d),
                                         "ctx": gen_ctx(rng, ratelimit, k)}
-            if kind < 0.27:
+            keep = 0
+            if kind < heavy_share:
+                # HEAVY STORM: far more renders in flight than any small limit (48-128 goroutines, rate limit off
+                # or far above the default), each of deep / large but ordinary data through the serialising
+                # templates: (renders in flight) x (work per render: nesting depth of the serialised data,
+                # recursion depth of the mixin, loop counts, output size) reaches numbers no single render does
+                shape = "heavy"
+                ratelimit = rng.choice([0, 0, 0, 0, 64, 256])
+                njobs = rng.choice([1, 2, 3, 4, 6])
+                # one size class per case: deep data, long loops, or both moderately
+                style = rng.choice(["deep", "deep", "deep", "long", "both"])
+                for k in range(njobs):
+                    if style == "long":
+                        t = rng.choice(["ser/rows", "ser/rows", "ser/json", "ser/tree"])
+                    else:
+                        t = rng.choice(["ser/json", "ser/json", "ser/tree", "ser/tree", "ser/rows"])
+                    depth = {"deep": rng.randint(5, 14), "long": rng.randint(2, 5), "both": rng.randint(4, 9)}[style]
+                    scale = {"deep": rng.randint(1, 3), "long": rng.randint(6, 12), "both": rng.randint(3, 6)}[style]
+                    jobs.append(job(t, k, gen_ser(rng, t, depth, scale)))
+                if rng.random() < 0.3:      # one ordinary page among them
+                    jobs.append(job(rng.choice(["loop", "mixins", "funcs", "opt/list"]), njobs))
+                    njobs += 1
+                reps = 0       # set below from the number of goroutines
+                keep = 2
+                cold = rng.random() < 0.15
+            elif kind < 0.32:
                 # CONTEXT STORM: overlapping renders of one context-dependent template (sometimes two or three)
                 # that differ in their context (and sometimes in their data)
                 shape = "ctx"
@@ -533,7 +729,7 @@ class C08(Prop):
                     t = tpls[k % len(tpls)]
                     jobs.append(job(t, k, base[t] if rng.random() < 0.5 else None))   # same data, other context
                 cold = rng.random() < 0.15
-            elif kind < 0.50:
+            elif kind < 0.52:
                 # MIXED STORM: all templates, context-dependent or not
                 shape = "mixed"
                 njobs = rng.choice([1, 2, 3, 4, 6, 8])
@@ -547,7 +743,7 @@ class C08(Prop):
                         t = rng.choice([x for x in TNAMES if x != "fail"])
                     jobs.append(job(t, k))
                 cold = rng.random() < 0.2
-            elif kind < 0.75:
+            elif kind < 0.76:
                 # RARE-HELPER STORM: many goroutines x many renders of templates that read members which are not
                 # there (optional members, name folding), use string helpers and number formatting; struct data too
                 shape = "rare"
@@ -565,7 +761,13 @@ class C08(Prop):
                 pool = REC_TNAMES * 4 + RARE_TNAMES + [x for x in TNAMES if x != "fail"]
                 jobs = [job(rng.choice(pool), k) for k in range(njobs)]
                 reps = rng.choice([1, 1, 2, 3])
-            if shape == "rare":
+            if shape == "heavy":
+                # a render of deep data costs 2-4 ms (20-30 ms under the race detector, longer than the scheduler's
+                # time slice: after the first slices every goroutine is in the middle of a render), so few
+                # repetitions are enough and keep a case at about 300 renders (one round)
+                ngo = rng.choice([48, 64, 64, 96, 128])
+                reps = max(2, 256 // ngo)
+            elif shape == "rare":
                 ngo = rng.choice([8, 16, 32, 32])
             elif shape == "cold":
                 ngo = rng.choice([4, 8, 8, 16, 32])
@@ -579,12 +781,19 @@ class C08(Prop):
                 if shape == "ctx":                            # at least two different contexts meet
                     calls[0], calls[1] = 0, 1
             # deliberate staggering inside the harness's template functions (0 = none: free-running storm)
-            free = {"ctx": 0.15, "mixed": 0.4, "rare": 0.8, "cold": 0.7}[shape]
+            free = {"ctx": 0.15, "mixed": 0.4, "rare": 0.8, "cold": 0.7, "heavy": 0.7}[shape]
             stagger = 0 if rng.random() < free else rng.randrange(1, 1 << 40)
-            rounds = rng.randint(3, 6) if shape == "cold" else rng.randint(2, 3) if shape == "rare" else rng.randint(2, 5)
+            rounds = (rng.randint(3, 6) if shape == "cold" else rng.randint(2, 3) if shape == "rare" else
+                      1 if shape == "heavy" else rng.randint(2, 5))
             cases.append({"files": FILES, "jobs": jobs, "calls": calls, "rounds": rounds,
                           "debug": False, "ratelimit": ratelimit, "stagger": stagger, "shape": shape,
-                          "reps": reps, "cold": cold, "sseed": rng.randrange(1 << 30)})
+                          "reps": reps, "cold": cold, "keep": keep, "count": shape == "heavy", "sseed": rng.randrange(1 << 30)})
+        # the heavy storms cost seconds each, in the harness and in the judge: at most one per judge shard
+        heavy = [c for c in cases if c["shape"] == "heavy"]
+        cases = [c for c in cases if c["shape"] != "heavy"]
+        step = max(self.shard, (len(cases) + len(heavy)) // max(1, len(heavy)))
+        for k, c in enumerate(heavy):
+            cases.insert(min(len(cases), k * step), c)
         return cases
 
     # ---------------------------------------------------------------- running (race detector log, crash isolation)
@@ -633,8 +842,10 @@ class C08(Prop):
         # The main stream (40+ cases) is attempted once.
         if attempts is None:
             attempts = max(1, min(40, 48 // max(1, len(cases))))
-        for _ in range(attempts - 1):
-            again = [i for i, o in enumerate(obss) if o.get("go_equal") and not o.get("races") and not o.get("crashed")]
+        for k in range(attempts - 1):
+            # (a storm of many goroutines costs seconds: three attempts)
+            again = [i for i, o in enumerate(obss) if o.get("go_equal") and not o.get("races") and not o.get("crashed")
+                     and (k < 2 or not cases[i].get("count"))]
             if not again:
                 break
             for i, o in zip(again, self._run_isolating(binary, [cases[i] for i in again], tmp)):
@@ -651,6 +862,17 @@ class C08(Prop):
     def emit(self, case, obs):
         import random as _random
         seq = obs.get("seq") or []
+        # long outputs are written once (a table `os`, bound by a let) and named `nth K os []` where they occur: the term stays small
+        # when 128 goroutines return the same 5 kB page; what the judge compares are still the bytes Go returned
+        pool = {}
+
+        def res_term(r):
+            if r["class"] != "ok":
+                return b"(inr %d)" % CLASS_CODE.get(r["class"], 9)
+            out = unhx(r["out"])
+            if len(out) < 48:
+                return b"(inl " + cq_bytes(out) + b")"
+            return b"(inl (nth %d os []))" % pool.setdefault(out, len(pool))
         rounds = []
         for ri, conc in enumerate(obs.get("conc") or []):
             # one model call per goroutine and DISTINCT result it got in the round (its repetitions that returned
@@ -660,23 +882,39 @@ class C08(Prop):
                 for x in flat(ds):
                     calls.append(j)
                     results.append(x)
-            sched = []
-            for g, j in enumerate(calls):
-                sched += [g] * (steps_needed(seq[j]) + 1 if j < len(seq) else 2)
+            need = [steps_needed(seq[j]) + 1 if j < len(seq) else 2 for j in calls]
             r = _random.Random(case.get("sseed", 0) * 7 + ri)
             style = r.random()
-            if style < 0.7:
-                r.shuffle(sched)                      # an arbitrary interleaving
+            if style < 0.7 and sum(need) <= 1500:
+                sched = [g for g, k in enumerate(need) for _ in range(k)]
+                r.shuffle(sched)                      # an arbitrary interleaving, step by step
+                runs = []
+                for g in sched:
+                    if runs and runs[-1][0] == g:
+                        runs[-1][1] += 1
+                    else:
+                        runs.append([g, 1])
+            elif style < 0.7:
+                # many long renders: an arbitrary interleaving of pieces (every render is cut in up to 4 pieces)
+                runs = []
+                for g, k in enumerate(need):
+                    cuts = sorted(r.sample(range(1, k), min(3, k - 1)))
+                    runs += [[g, b - a] for a, b in zip([0] + cuts, cuts + [k])]
+                r.shuffle(runs)
             elif style < 0.85:
-                sched.sort(key=lambda g: -g)          # one render at a time, last call first
-            # else: one render at a time, in call order
+                runs = [[g, k] for g, k in reversed(list(enumerate(need)))]   # one render at a time, last call first
+            else:
+                runs = [[g, k] for g, k in enumerate(need)]                   # one render at a time, in call order
             rounds.append(b"{| calls := " + cq_list([cq_pair(cq_nat(j), res_term(x)) for j, x in zip(calls, results)]) +
-                          b"; sched := " + cq_list([cq_nat(g) for g in sched]) + b" |}")
-        return (b"{| seq := " + cq_list([res_term(x) for x in seq]) +
+                          b"; sched := rle " + cq_list([cq_pair(cq_nat(g), cq_nat(k)) for g, k in runs]) + b" |}")
+        body = (b"{| seq := " + cq_list([res_term(x) for x in seq]) +
                 b"; seq_after := " + cq_list([res_term(x) for x in (obs.get("seq_after") or [])]) +
                 b"; rounds := " + cq_list(rounds) +
                 b"; races := " + cq_nat(min(obs.get("races", 0), 1000)) +
                 b"; crashed := " + cq_bool(bool(obs.get("crashed"))) + b" |}")
+        # (ONE let: coqc's time for a chain of lets grows with their number times the size of the term)
+        table = cq_list([cq_packed(o) for o, k in sorted(pool.items(), key=lambda kv: kv[1])])
+        return b"(let os : list bytes := " + table + b" in\n" + body + b")"
 
     def model_expr(self):
         return "(map (model_round c) (rounds c), oracle08 c, agree08 c)"
@@ -697,6 +935,7 @@ class C08(Prop):
                 "first_sequential_output": (unhx(obs["seq"][0]["out"]).decode("utf-8", "replace")[:200]
                                             if obs.get("seq") else None),
                 "go_all_equal": obs.get("go_equal"), "race_reports": obs.get("races"),
+                "renders_in_flight": obs.get("in_flight"),
                 "gomaxprocs": obs.get("procs")}
 
     def distribution(self, cases, obss):
@@ -707,7 +946,11 @@ class C08(Prop):
              "stagger": {"points": 0, "holds": 0, "released": 0, "timeouts": 0, "max_inside": 0},
              "renders_per_goroutine_and_round": {}, "cold_cases": 0, "cold_concurrent_renders": 0,
              "cold_first_rounds_renders": 0, "rounds_with_struct_types_new_to_the_process": 0,
-             "renders_of_struct_data": 0, "renders_through_rare_helpers": 0, "largest_struct_fields": 0}
+             "renders_of_struct_data": 0, "renders_through_rare_helpers": 0, "largest_struct_fields": 0,
+             "heavy": {"cases": 0, "concurrent_renders": 0, "goroutines": {}, "most_renders_in_flight": 0,
+                       "deepest_serialised_data": 0, "largest_goroutines_x_depth": 0, "largest_output_bytes": 0,
+                       "largest_sum_of_outputs_in_flight_bytes": 0, "most_loop_iterations_per_render": 0,
+                       "renders_through_serialising_templates": 0, "distinct_results_dropped": 0}}
         for c, o in zip(cases, obss):
             sh = c.get("shape", "corpus")
             d["shapes"][sh] = d["shapes"].get(sh, 0) + 1
@@ -734,6 +977,26 @@ class C08(Prop):
             d["sequential_renders"] += 2 * len(c["jobs"])
             reps = max(1, c.get("reps", 1))
             d["renders_per_goroutine_and_round"][str(reps)] = d["renders_per_goroutine_and_round"].get(str(reps), 0) + 1
+            if sh == "heavy" or c.get("count"):
+                h = d["heavy"]
+                h["cases"] += 1
+                h["concurrent_renders"] += nconc
+                h["goroutines"][n] = h["goroutines"].get(n, 0) + 1
+                h["most_renders_in_flight"] = max(h["most_renders_in_flight"], o.get("in_flight", 0))
+                h["distinct_results_dropped"] += o.get("dropped", 0)
+                dep = [_depth_go(j["data"]) for j in c["jobs"]]
+                h["deepest_serialised_data"] = max([h["deepest_serialised_data"]] + dep)
+                h["largest_goroutines_x_depth"] = max(h["largest_goroutines_x_depth"],
+                                                      sum(dep[g] for g in c["calls"]))
+                outs = [len(r.get("out", "")) // 2 for r in (o.get("seq") or [])]
+                if outs:
+                    h["largest_output_bytes"] = max(h["largest_output_bytes"], max(outs))
+                    h["largest_sum_of_outputs_in_flight_bytes"] = max(h["largest_sum_of_outputs_in_flight_bytes"],
+                                                                      sum(outs[g] for g in c["calls"] if g < len(outs)))
+                its = [int(x) for j in c["jobs"] for x in __import__("re").findall(r'"7370696e", \{"t": "int", "v": (\d+)', json.dumps(j["data"]))]
+                h["most_loop_iterations_per_render"] = max([h["most_loop_iterations_per_render"]] + its)
+                h["renders_through_serialising_templates"] += reps * nr * sum(
+                    unhx(c["jobs"][g]["tpl"]).startswith(b"ser/") for g in c["calls"])
             if c.get("cold"):
                 d["cold_cases"] += 1
                 d["cold_concurrent_renders"] += nconc
@@ -767,6 +1030,22 @@ class C08(Prop):
     # ---------------------------------------------------------------- shrinking
     def shrink(self, case):
         calls, jobs = case["calls"], case["jobs"]
+        if case.get("count"):
+            # a storm of many goroutines: what it shows needs the many, and every candidate costs seconds - a few
+            # bold steps only (one round of two renders each, everybody renders the deepest data, half the goroutines)
+            used = sorted(set(calls))
+            if len(used) < len(jobs):
+                remap = {j: i for i, j in enumerate(used)}
+                yield dict(case, jobs=[jobs[j] for j in used], calls=[remap[j] for j in calls])
+                return
+            if case["rounds"] > 1 or case.get("reps", 1) > 2 or case.get("stagger") or case.get("cold"):
+                yield dict(case, rounds=1, reps=min(2, case.get("reps", 1)), stagger=0, cold=False)
+            if len(used) > 1:
+                deepest = max(used, key=lambda j: _depth_go(jobs[j]["data"]))
+                yield dict(case, calls=[deepest] * len(calls))
+            if len(calls) > 16:
+                yield dict(case, calls=calls[:len(calls) // 2])
+            return
         if not case.get("stagger"):
             # a free-running storm: first try the same case with deliberate staggering, which makes the
             # overlaps (and so the witness) far more repeatable
@@ -794,7 +1073,8 @@ class C08(Prop):
     # ---------------------------------------------------------------- debug mode: observed, not judged
     def extra(self, binary, tmp, tier, rng, ev):
         n = 6 if tier == "quick" else 60
-        cases = self.generate(rng, n, tier)
+        # (not the heavy storms: in debug mode each of their 48-128 goroutines would reload every template per render)
+        cases = [c for c in self.generate(rng, n, tier) if c["shape"] != "heavy"]
         for c in cases:
             c["debug"] = True
             c["reps"] = 1        # every debug-mode render reloads the templates
